@@ -215,6 +215,20 @@ class EdgeChecker:
         return child, legal
 
 
+def eager_validate(acc: Acc, env: Any, chk: EdgeChecker, cases: Sequence[Any]) -> None:
+    """Re-execute explored edges through the plain un-jitted env.step and compare with the batch."""
+    import jax.numpy as jnp
+
+    for b, a, child, reward, step_type in cases:
+        s, ts = env.step(one_state(b), jnp.asarray(a, jnp.int32))
+        if not (np.array_equal(np.asarray(s.puzzle), child) and np.isclose(float(ts.reward), reward)
+                and int(ts.step_type) == step_type):
+            acc.violation(f"{FAM}:env.step:eager-differs-from-jit-vmap",
+                          f"action {a} on {b.tolist()}: eager {np.asarray(s.puzzle).tolist()} r={float(ts.reward)} "
+                          f"vs batched {child.tolist()} r={reward}", chk.rp(b, a))
+        acc.validated += 1
+
+
 def _np_tree(tree: Any, m: int) -> Any:
     import jax
 
@@ -245,7 +259,7 @@ def full_space(n: int, reward: str, tier: str, seed: int) -> Dict[str, Any]:
     frontier = goal[None]
     all_boards, all_child_codes = [], []
     layer_sizes = [1]
-    eager_pool: List[Tuple[np.ndarray, int]] = []
+    eager_pool: List[Any] = []
     while len(frontier):
         new_codes, new_boards = [], []
         for lo in range(0, len(frontier), CH):
@@ -265,7 +279,8 @@ def full_space(n: int, reward: str, tier: str, seed: int) -> Dict[str, Any]:
             new_codes.append(flat_codes[fresh])
             new_boards.append(child.reshape(-1, n, n)[fresh])
             if len(eager_pool) < 256:
-                eager_pool += [(par[i], a) for i in range(0, m, max(1, m // 3)) for a in range(4)]
+                eager_pool += [(par[i], a, child[i, a], float(np.asarray(ts2.reward)[i, a]),
+                                int(np.asarray(ts2.step_type)[i, a])) for i in range(0, m, max(1, m // 3)) for a in range(4)]
         nc = np.concatenate(new_codes)
         nb = np.concatenate(new_boards)
         uc, first = np.unique(nc, return_index=True)
@@ -310,12 +325,7 @@ def full_space(n: int, reward: str, tier: str, seed: int) -> Dict[str, Any]:
             acc.violation(f"{FAM}:env.step:reachable-board-fails-parity-criterion", f"{n_par} boards",
                           dict(kind="slide_space", n=n, reward=reward))
     # eager validation
-    for b, a in pick(eager_pool, 6 if tier == "quick" else 20, seed):
-        fails = replay_case(dict(kind="slide_edge", n=n, reward=reward, board=b.tolist(), action=int(a)), env=env)
-        if fails:
-            acc.violation(f"{FAM}:env.step:eager-differs-from-jit-vmap", f"eager step reports {fails}",
-                          chk.rp(b, a))
-        acc.validated += 1
+    eager_validate(acc, env, chk, pick(eager_pool, 6 if tier == "quick" else 20, seed))
     acc.sample(dict(case="slide-full-space", n=n, reward=reward, layer_sizes=layer_sizes[:8] + ["..."] + layer_sizes[-3:],
                     diameter=len(layer_sizes) - 1))
     return acc.result(closed=bool(closed), exhaustive=True, grid_size=n, reward_fn=reward, boards=N,
@@ -366,7 +376,7 @@ def bounded(n: int, reward: str, depth: int, n_roots: int, tier: str, seed: int)
     frontier = np.stack(frontier_l)
     n_roots_distinct = len(frontier)
     layer_sizes = [len(frontier)]
-    eager_pool: List[Tuple[np.ndarray, int]] = []
+    eager_pool: List[Any] = []
     for d in range(depth):
         new = []
         for lo in range(0, len(frontier), CH):
@@ -389,7 +399,8 @@ def bounded(n: int, reward: str, depth: int, n_roots: int, tier: str, seed: int)
                                                             board=par[i].tolist(), action=int(a)))
             acc.count("opposite_pairs_checked", int(legal.sum()))
             if len(eager_pool) < 128:
-                eager_pool += [(par[i], a) for i in range(0, m, max(1, m // 3)) for a in range(4)]
+                eager_pool += [(par[i], a, child[i, a], float(np.asarray(ts2n.reward)[i, a]),
+                                int(np.asarray(ts2n.step_type)[i, a])) for i in range(0, m, max(1, m // 3)) for a in range(4)]
             for row in flat:
                 k = row.tobytes()
                 if k not in seen:
@@ -400,11 +411,7 @@ def bounded(n: int, reward: str, depth: int, n_roots: int, tier: str, seed: int)
         frontier = np.stack(new)
         layer_sizes.append(len(frontier))
     acc.states += len(seen)
-    for b, a in pick(eager_pool, 4 if tier == "quick" else 12, seed):
-        fails = replay_case(dict(kind="slide_edge", n=n, reward=reward, board=b.tolist(), action=int(a)), env=env)
-        if fails:
-            acc.violation(f"{FAM}:env.step:eager-differs-from-jit-vmap", f"eager step reports {fails}", chk.rp(b, a))
-        acc.validated += 1
+    eager_validate(acc, env, chk, pick(eager_pool, 4 if tier == "quick" else 12, seed))
     acc.sample(dict(case="slide-bounded-bfs", n=n, reward=reward, roots=n_roots_distinct, layer_sizes=layer_sizes))
     return acc.result(closed=False, exhaustive=True, grid_size=n, reward_fn=reward, bfs_depth=depth,
                       roots=n_roots_distinct, layer_sizes=layer_sizes, cap="depth",
